@@ -5,6 +5,7 @@ from .sym import App
 from .real_vm import json_to_py
 
 UNIVERSE = [f'i{k}' for k in range(7)] + ['']     # the empty string is a legal (falsy) id
+IDS_FORMS = ['list', 'list', 'tuple', 'set', 'iter', 'gen', 'dupes', 'keys']   # Filter.keep / drop take any Iterable[str]
 FOREIGN = ['zz']
 KEYS = ['u', 'v', 'w']
 
@@ -421,14 +422,14 @@ def gen_rel(rng, kind=None, depth=0, counter=None):
                     finish_pred(p, ref({'k': 'chain', 'layers': layers}))
                     layers.append(p)
                 elif r < 0.8:
-                    layers.append({'k': 'keep', 'ids': rng.sample(UNIVERSE, 3)})
+                    layers.append({'k': 'keep', 'ids': rng.sample(UNIVERSE, 3), 'form': rng.choice(IDS_FORMS)})
                 else:
-                    layers.append({'k': 'drop', 'ids': rng.sample(UNIVERSE, 2)})
+                    layers.append({'k': 'drop', 'ids': rng.sample(UNIVERSE, 2), 'form': rng.choice(IDS_FORMS)})
             if rng.random() < 0.4:
                 layers.append({'k': 'check_ids'})
         elif kind == 'check_ids':
             if rng.random() < 0.5:
-                layers.append({'k': 'keep', 'ids': rng.sample(UNIVERSE, 4)})
+                layers.append({'k': 'keep', 'ids': rng.sample(UNIVERSE, 4), 'form': rng.choice(IDS_FORMS)})
             layers.append({'k': 'check_ids'})
         else:
             keys = [f for f in fields if f.startswith('k')]
